@@ -71,7 +71,7 @@ def evaluate(res):
 
 
 def run(rep, tier, seed, replay, proof_ok, proof_msg):
-    ftree.standard(rep, tier, seed, replay, proof_ok, proof_msg, "C13", 300, 4000, True, evaluate, export=False)
+    ftree.standard(rep, tier, seed, replay, proof_ok, proof_msg, "C13", 300, 30000, True, evaluate, export=False)
     rep.assumptions += ["in-place edits keep the particle inside the box as the library's own assertion requires",
                         "equivalence with a freshly built tree is compared for the first cycle of configurations whose data type equals the coordinate type",
                         "target/source trees: see C09"]
